@@ -6,17 +6,19 @@ CONSTANTS
   MaxWrites = 2
   MaxOpN = 1
   NoOpnSnapshot = FALSE
-  Kinds = {"bit", "roaring", "rowop", "large"}
+  Kinds = {"bit", "rowop"}
   KeyChunks = 2
-  TornTailFails = TRUE
-  RoaringTwoWrites = TRUE
-  RowOpAsync = TRUE
-  MultiSeparateWrites = TRUE
-  SnapTmpTruncated = TRUE
+  TornTailFails = FALSE
+  RoaringTwoWrites = FALSE
+  RowOpAsync = FALSE
+  MultiSeparateWrites = FALSE
+  SnapTmpTruncated = FALSE
   Contentless = FALSE
 INIT Init
 NEXT Next
 SYMMETRY FragPerms
 INVARIANT TypeOK
 INVARIANT RestartSucceeds
+INVARIANT AckedDurable
+INVARIANT InflightAtomicPerShard
 CHECK_DEADLOCK FALSE
